@@ -33,7 +33,9 @@ def _init_worker():
     devnull = open(os.devnull, "w")
     sys.stderr = devnull  # tqdm / colorama chatter of the compiler
     try:
-        import rzilcompiler.Helper as H
+        import contextlib, io
+        with contextlib.redirect_stdout(io.StringIO()):
+            import rzilcompiler.Helper as H
         H.LOG_LEVEL = -1
     except Exception:
         pass
